@@ -1,4 +1,5 @@
 import Oracle.C08
+import Model.C09
 /-!
 Oracle handlers for C09. The step replay (model diff) is the one of C08; the judge evaluates the C09
 statements on the recorded history: what the ring and the tokens file held when the process died, what
@@ -125,6 +126,17 @@ def judgeNode (c : Cfg) (i : Nat) (log : List Rec) (mustBeActive : Bool) : List 
                 | some e => if e.state != s1 then bad := s!"state-lost-after-rejected-write:{r.arg}" :: bad
                 | none => pure ()
         | _, _ => pure ()
+  -- "reaches the active state with its full token count": whenever this lifecycler's own write makes its entry ACTIVE
+  for p in [0:n] do
+    let r := arr[p]!
+    if r.idx == i && r.committed then
+      match entryOf r.after c.id with
+      | some e =>
+        let was := match entryOf r.before c.id with | some a => a.state == .ACTIVE | none => false
+        -- (not after a hand-over: a claim replaces the token list by the claimed one, whatever its length)
+        let claimed := (arr.toList.take p).any fun x => x.idx == i && x.ev == "claim" && x.committed
+        if e.state == .ACTIVE && !was && !claimed && e.tokens.length < c.numTokens then bad := "active-without-full-tokens" :: bad
+      | none => pure ()
   -- (c) the tokens file never becomes unparsable
   let mut lastFile := ""
   for p in [0:n] do
@@ -186,8 +198,27 @@ def handleRun (f : List String) : String × String × String :=
       (diff, judge, tags)
   | _ => ("bad-fields", "-", "-")
 
+/-- `C09.file <case> <old> <new> <limit> <child error class> <loads> <old|new|other> <tmp left>`: an existing tokens
+file rewritten by a child process under a file-size limit. Judge: whatever happened to the write, the file loads
+and holds the complete old or the complete new list. -/
+def handleFile (f : List String) : String × String × String :=
+  match f with
+  | [_name, old, new, limit, cls, loads, which, tmp] =>
+    match natList? old, natList? new, limit.toNat? with
+    | some o, some nw, some lim =>
+      let fails := lim > 0 && C09.jsonLen nw > lim
+      let r := C09.storeResult { main := .tokens o } nw fails
+      let mWhich := if r.1.main == .tokens nw then "new" else if r.1.main == .tokens o then "old" else "other"
+      let model := [if r.2 then "efbig" else "ok", "1", mWhich, if r.1.tmp == .absent then "0" else "1"]
+      let diff := if model == [cls, loads, which, tmp] then "-" else "model=" ++ " ".intercalate model
+      let judge := if loads == "1" && (which == "old" || which == "new") then "-" else "tokens-file-corrupt"
+      (diff, judge, s!"file=1 write={if fails then "fails" else "ok"} limit={lim}")
+    | _, _, _ => ("bad-input", "-", "file=1")
+  | _ => ("bad-fields", "-", "file=1")
+
 def handle (cmd : String) (f : List String) : String × String × String :=
   if cmd == "C09.run" then handleRun f
+  else if cmd == "C09.file" then handleFile f
   else ("unknown-cmd", "-", "-")
 
 end OracleC09
